@@ -514,7 +514,11 @@ Step(s, e) ==
                                 IF e.sp = "nil" THEN real("null")
                                 ELSE IF m = "OnTime" /\ ~e.pok THEN Fail(s, "array")
                                 ELSE real("key")
-    [] m \in FloatMethods    -> IF e.sp = "nil" THEN real("null") ELSE real("nonkey")
+    [] m \in FloatMethods    -> (* a big binary float whose exponent has more digits than            *)
+                                (* MaxFloatExponentDigitCount is refused before any rule (pok = FALSE) *)
+                                IF e.sp = "nil" THEN real("null")
+                                ELSE IF m = "OnBigFloat" /\ ~e.pok THEN Fail(s, "limit")
+                                ELSE real("nonkey")
     [] m = "OnNan"           -> real("nonkey")
     [] m = "OnList"          -> real("list")
     [] m = "OnMap"           -> real("map")
